@@ -50,6 +50,21 @@ def setup(ctx):
     warnings.simplefilter("ignore")
 
 
+def reload_persim():
+    """re-execute every persim module (deepest first) so that module-level state is what a fresh import gives"""
+    global P, GHm
+    import importlib
+    import sys
+    names = sorted((n for n in sys.modules if n == "persim" or n.startswith("persim.")), key=lambda n: -n.count("."))
+    for n in names:
+        m = sys.modules.get(n)
+        if m is not None and getattr(m, "__spec__", None) is not None:
+            importlib.reload(m)
+    import persim as P_
+    P = P_
+    GHm = importlib.import_module("persim.gromov_hausdorff")
+
+
 def canon(x):
     """canonical by-value form of a result"""
     import persim
@@ -449,6 +464,12 @@ def run_case(ctx, k, rng):
     # replay phase: every distinct call once more, in reverse order, on fresh equal-valued copies - history-dependent state
     # (caches keyed by identity, leaked globals) shows up as a different result for the same values
     import copy as _copy
+    if rng.random() < 0.5:
+        # half of the programs replay against a library whose module-level state is as after a fresh import (every persim module
+        # re-executed): a result that was shaped by something an earlier call left behind in the process - a memo keyed by part of
+        # the arguments, a leaked global - differs from the one a new process would give for the same values
+        reload_persim()
+        ctx.note("replays after re-importing the library")
     fresh_shared = make_shared()        # long-lived estimators are replaced by brand-new ones: their answers must not depend on their past
     for name, picks, vkey in list(reversed(first_seen))[:25]:
         args = [_copy.deepcopy(p[0]) if isinstance(p[0], (np.ndarray, list)) else (fresh_shared if p[1][0] == "shared" else p[0]) for p in picks]
